@@ -94,7 +94,23 @@ func (fv *FV) call(st *State, instr ssa.Instruction, c *ssa.CallCommon, res ssa.
 		var rtyp types.Type
 		external := false
 		if !fv.eng.ifaceInScope(c.Method) {
-			target, rtyp, external = fv.resolveDyn(st, recv, c.Method)
+			pruned := false
+			func() {
+				defer func() {
+					if r := recover(); r != nil {
+						if _, ok := r.(infeasiblePath); ok {
+							pruned = true
+							return
+						}
+						panic(r)
+					}
+				}()
+				target, rtyp, external = fv.resolveDyn(st, recv, c.Method)
+			}()
+			if pruned {
+				fv.paths++
+				return
+			}
 		}
 		if target != nil {
 			rv := Val{T: fmt.Sprintf("(ival %s)", recv.T), S: "Int", Typ: rtyp}
